@@ -18,6 +18,7 @@ Partial aspects
 -/
 import KafkaVerif.Lemmas.GroupInv
 import KafkaVerif.Lemmas.GroupHb
+import KafkaVerif.Lemmas.GroupHbAlive
 import KafkaVerif.Gen.GroupFacts
 
 namespace KV.Group.C15
@@ -323,6 +324,26 @@ theorem heartbeat_from_creation (c : Cfg) (s : St) (h : Reachable c s)
     (hp : s.pc = .handing ∨ s.pc = .running) : s.cur.hb.isSome = true := by
   apply inv3_reachable c s h
   rcases hp with hp | hp <;> rw [hp] <;> rfl
+
+/-- "for as long as the generation lives": while the generation is handed over or running, has not ended
+(`closed = false`) and no exit section is pending, its heartbeat function is inside its loop — waiting for the next tick,
+inside a heartbeat call, or holding a failure it is about to return with (which then ends the generation). -/
+theorem heartbeat_alive_while_generation_lives (c : Cfg) (s : St) (h : Reachable c s)
+    (hp : s.pc = .handing ∨ s.pc = .running) (hc : s.cur.closed = false) (hr : s.cur.returning = 0) :
+    s.cur.hb = some .idle ∨ s.cur.hb = some .calling ∨ s.cur.hb = some .failed := by
+  have h3 := heartbeat_from_creation c s h hp
+  have h4 := inv4_reachable c s h
+  cases hh : s.cur.hb with
+  | none => rw [hh] at h3; cases h3
+  | some p =>
+    cases p with
+    | idle => exact .inl rfl
+    | calling => exact .inr (.inl rfl)
+    | failed => exact .inr (.inr rfl)
+    | done =>
+      rcases h4 hh with h5 | h5
+      · rw [hc] at h5; cases h5
+      · omega
 
 /-- the hand-over step itself is only possible with a started heartbeat function -/
 theorem handed_has_heartbeat (c : Cfg) (s s' : St) (h : Reachable c s) (g : Nat)
